@@ -265,3 +265,47 @@ Proof.
   destruct (step_basic_total s o s' out I B1 St) as (O1 & I'). cbn.
   destruct (IH s' I' B2) as (O2 & I2). auto.
 Qed.
+
+(* ---- what a node REPORTS (the pure reading of x.body_duration / x.duration that the observation uses) is the recomputed
+   duration: the formal link between clause I1 of Inv and the `o_dur = tdur` test of check_spec ------------------------------------------------ *)
+Lemma osum_cons g c l acc : osum g (c :: l) acc = match g c with Some d => osum g l (Qred (acc + d)) | None => None end.
+Proof. reflexivity. Qed.
+
+Lemma peek_body_spec h r : Inv h r -> forall fuel x d, depth h r x d -> (length h < fuel + d)%nat ->
+  exists q b, peek_body fuel h x = Some q /\ tbody h x b /\ (q == b)%Q.
+Proof.
+  intros I. induction fuel as [|f IH]; intros x d D L.
+  { pose proof (depth_lt h r _ I x d D). lia. }
+  pose proof (depth_reach _ _ _ _ D) as Rx.
+  destruct (live_get _ _ _ I x Rx) as (nx & G). cbn [peek_body]. rewrite G.
+  destruct (cache nx) as [q|] eqn:Cq.
+  { destruct (inv_cache _ _ _ I x Rx (fun f0 => f0) nx q G Cq) as (b & Tb & Eb). exists q, b. auto. }
+  destruct (children nx) as [|c0 cs0] eqn:Ch.
+  { exists (leaf_dur nx), (leaf_dur nx). split; [reflexivity|]. split; [apply (TB_leaf h x nx); auto|reflexivity]. }
+  set (g := fun c => match peek_body f h c, get h c with
+                     | Some b, Some nc => Some (Qred (b * inject_Z (rep_count (rdf nc))))
+                     | _, _ => None end).
+  assert (OS : forall cs acc, (forall c, In c cs -> In c (children nx)) ->
+             exists q s, osum g cs acc = Some q /\ tsum h cs s /\ (q == acc + s)%Q).
+  { induction cs as [|c cs IHcs]; intros acc Sub.
+    - exists acc, 0%Q. split; [reflexivity|]. split; [constructor|ring].
+    - assert (Dc : depth h r c (S d)) by (econstructor; eauto; apply Sub; now left).
+      destruct (IH c (S d) Dc) as (qc & bc & Ec & Tc & Eqc); [lia|].
+      destruct (live_get _ _ _ I c (depth_reach _ _ _ _ Dc)) as (nc & Gc).
+      rewrite osum_cons. unfold g at 1. rewrite Ec, Gc.
+      destruct (IHcs (Qred (acc + Qred (qc * inject_Z (rep_count (rdf nc)))))) as (q & s & Eq & Ts & Es); [intros; apply Sub; now right|].
+      exists q, (bc * rep_of nc + s)%Q. split; auto. split; [constructor; auto|].
+      rewrite Es. rewrite !Qred_correct. rewrite Eqc. unfold rep_of. ring. }
+  destruct (OS (c0 :: cs0) 0%Q) as (q & s & Eq & Ts & Es); [rewrite Ch; auto|].
+  exists q, s. split; [exact Eq|]. split; [apply (TB_inner h x nx); auto; [congruence|rewrite Ch; exact Ts]|rewrite Es; ring].
+Qed.
+
+Lemma reported_is_recomputed h r x : Inv h r -> reach h r x ->
+  exists q b nx, peek_dur (S (S (length h))) h x = Some q /\ tbody h x b /\ get h x = Some nx /\ (q == b * rep_of nx)%Q.
+Proof.
+  intros I Rx. destruct (reach_depth _ _ _ Rx) as (d & D).
+  destruct (peek_body_spec h r I (S (S (length h))) x d D) as (q & b & E & Tb & Eq); [lia|].
+  destruct (live_get _ _ _ I x Rx) as (nx & G).
+  exists (Qred (q * inject_Z (rep_count (rdf nx)))), b, nx. unfold peek_dur. rewrite E, G.
+  split; auto. split; auto. split; auto. rewrite Qred_correct, Eq. reflexivity.
+Qed.
